@@ -532,8 +532,8 @@ MYTH_CTX_CALLBACK void myth_join_2(void *arg1,void *arg2,void *arg3)
   myth_thread_t th=arg2,next_thread=arg3;
   MYTH_VERIF_EV2("CbEnter", 4, ((long)__builtin_frame_address(0) & 15));
   //Set join target
-  MYTH_VERIF_EV2("JoinSet", VD(th), VD(env->this_thread));
   myth_desc_join_set(th,env->this_thread);
+  MYTH_VERIF_EV3("JoinSet", VD(th), VD(env->this_thread), th->join_thread == env->this_thread);
   MYTH_VERIF_POINT(22);
   myth_spin_unlock_body(&th->lock);
   //Change current running thread
@@ -548,8 +548,8 @@ MYTH_CTX_CALLBACK void myth_join_3(void *arg1,void *arg2,void *arg3)
   (void)arg3;
   MYTH_VERIF_EV2("CbEnter", 5, ((long)__builtin_frame_address(0) & 15));
   //Set join target
-  MYTH_VERIF_EV2("JoinSet", VD(th), VD(this_thread));
   myth_desc_join_set(th,this_thread);
+  MYTH_VERIF_EV3("JoinSet", VD(th), VD(this_thread), th->join_thread == this_thread);
   //Change current running thread
   MYTH_VERIF_POINT(22);
   myth_spin_unlock_body(&th->lock);
@@ -647,8 +647,8 @@ static inline int myth_join_body(myth_thread_t th,void **result) {
   }
   //Set current thread as blocked
   MYTH_VERIF_POINT(25);
-  MYTH_VERIF_EV1("SetBlocked", VD(this_thread));
   myth_desc_set_not_runnable(this_thread);
+  MYTH_VERIF_EV2("SetBlocked", VD(this_thread), this_thread->status == MYTH_STATUS_BLOCKED);
 #if MYTH_JOIN_DEBUG
   myth_dprintf("myth_join:%p is added to %p's waiting list\n",this_thread,th);
 #endif
@@ -906,8 +906,8 @@ static inline int myth_detach_body(myth_thread_t th)
     free_myth_thread_struct_desc(myth_get_current_env(),th);
   }
   else{//Set a thread as detached
-    MYTH_VERIF_EV1("SetDetached", VD(th));
     myth_desc_set_detached(th);
+    MYTH_VERIF_EV2("SetDetached", VD(th), th->detached == 1);
     MYTH_VERIF_POINT(34);
     myth_spin_unlock_body(&th->lock);
   }
@@ -1166,8 +1166,8 @@ MYTH_CTX_CALLBACK void myth_entry_point_1(void *arg1,void *arg2,void *arg3)
     this_thread->status = MYTH_STATUS_FREE_READY2;
 #else
     MYTH_VERIF_POINT(26);
-    MYTH_VERIF_EV1("Publish", VD(this_thread));
     this_thread->status=MYTH_STATUS_FREE_READY2;
+    MYTH_VERIF_EV2("Publish", VD(this_thread), this_thread->status == MYTH_STATUS_FREE_READY2);
     MYTH_VERIF_POINT(27);
     myth_spin_unlock_body(&this_thread->lock);
 #endif
@@ -1221,8 +1221,8 @@ MYTH_CTX_CALLBACK void myth_entry_point_2(void *arg1,void *arg2,void *arg3)
     this_thread->status=MYTH_STATUS_FREE_READY2;
 #else
     MYTH_VERIF_POINT(26);
-    MYTH_VERIF_EV1("Publish", VD(this_thread));
     this_thread->status=MYTH_STATUS_FREE_READY2;
+    MYTH_VERIF_EV2("Publish", VD(this_thread), this_thread->status == MYTH_STATUS_FREE_READY2);
     MYTH_VERIF_POINT(27);
     myth_spin_unlock_body(&this_thread->lock);
 #endif
